@@ -48,7 +48,18 @@ func runProp(repo, prop string, cfg config) (ctx *Ctx, w *World, err error) {
 	func() {
 		defer func() {
 			if r := recover(); r != nil {
-				err = &LoadError{fmt.Sprintf("analyser panic in %s: %v\n%s", prop, r, debug.Stack())}
+				// a rule met a shape it cannot handle: undecided counts as not established (exit 1), with the
+				// obligations decided so far kept; the stack goes to stderr for diagnosis
+				stack := string(debug.Stack())
+				where := ""
+				for _, l := range strings.Split(stack, "\n") {
+					if strings.Contains(l, "/tunnelvet/rules_") || strings.Contains(l, "/tunnelvet/prop_") {
+						where = strings.TrimSpace(l)
+						break
+					}
+				}
+				fmt.Fprintf(os.Stderr, "tunnelvet: internal error while evaluating %s: %v\n%s\n", prop, r, stack)
+				ctx.fail(prop+".internal", "rules of "+prop+" could be evaluated on this tree", "-", fmt.Sprintf("a rule of %s could not be evaluated on this tree (unexpected code shape; internal error: %v at %s): the property is NOT established", prop, r, where))
 			}
 		}()
 		// resolve anchors and roles on the raw tree first; afterwards value identity looks through private helpers
